@@ -112,8 +112,11 @@ class Interface(ModelElement):
         assert name is not None
         assert self.type is InterfaceType.DedicatedPort
 
-        # check uniqueness
-        all_names = [n.name for n in self._interfaces]
+        # check uniqueness against the model, not this handle's list: another handle of the
+        # same interface may have added sub-interfaces since this one was created
+        model_ids = self.topo.graph_model.get_all_child_connection_points(interface_id=self.node_id)
+        all_names = [self.topo.graph_model.get_node_properties(node_id=i)[1][ABCPropertyGraph.PROP_NAME]
+                     for i in model_ids]
         if name in all_names:
             raise TopologyException(f'Sub Interface {name} is not unique within the interface')
 
